@@ -59,3 +59,17 @@ package udp
 //@   ensures implies(old(e.rcvList.head) != nil, e.rcvBufSize == old(e.rcvBufSize) - old(e.rcvList.head.data.size))
 //@   ensures implies(old(e.rcvList.head) != nil && addr != nil, addr.Port == old(e.rcvList.head.senderAddress.Port) && addr.Addr == old(e.rcvList.head.senderAddress.Addr) && addr.NIC == old(e.rcvList.head.senderAddress.NIC))
 //@   modifies e.rcvList.head, e.rcvList.tail, e.rcvBufSize, *addr, structfamily(udpPacket)
+
+// ---------------------------------------------------------------------------
+// C09 (binding side): Connect replaces the endpoint's registration in the demultiplexer. The
+// old registration is removed exactly as it was made - same NIC, same list of network
+// protocols, same identifier - so that no stale binding keeps receiving packets.
+//@ func (*endpoint).registerWithStack props C09
+//@   trusted
+//@   modifies modset(NETQUIET)
+
+//@ func (*endpoint).Connect props C09
+//@   requires e != nil && e.stack != nil
+//@   at_call UnregisterTransportEndpoint requires nicID == old(e.regNICID) && id == old(e.id) && protocol == ProtocolNumber
+//@   at_call UnregisterTransportEndpoint requires arr(netProtos) == old(arr(e.effectiveNetProtos)) && off(netProtos) == old(off(e.effectiveNetProtos)) && len(netProtos) == old(len(e.effectiveNetProtos))
+//@   modifies everything()
